@@ -150,17 +150,21 @@ void OlaServerServiceImpl::RegisterForDmx(
     Ack*,
     ola::rpc::RpcService::CompletionCallback* done) {
   ClosureRunner runner(done);
-  Universe *universe = m_universe_store->GetUniverseOrCreate(
-      request->universe());
-  if (!universe) {
-    return MissingUniverseError(controller);
-  }
-
   Client *client = GetClient(controller);
   if (request->action() == ola::proto::REGISTER) {
+    Universe *universe = m_universe_store->GetUniverseOrCreate(
+        request->universe());
+    if (!universe) {
+      return MissingUniverseError(controller);
+    }
     universe->AddSinkClient(client);
   } else {
-    universe->RemoveSinkClient(client);
+    // Don't create a universe just to unregister from it: nothing would ever
+    // queue the new, unused universe for garbage collection.
+    Universe *universe = m_universe_store->GetUniverse(request->universe());
+    if (universe) {
+      universe->RemoveSinkClient(client);
+    }
   }
 }
 
